@@ -38,6 +38,9 @@ def run(ctx):
     r6_rechunk_by_current_row(ctx)
     r7_row_memo(ctx)
     r9_batch_by_key(ctx)
+    # actions re-encoded by Repr / Finalize go through EncodeCatRows: the expansion of a categorical must be a one-hot and keys must be taken as keys
+    from . import c13
+    c13.r17_categorical_expansion(ctx, rule="C10.R10")
     # re-encoding must not rewrite the old interaction (Repr compares new['actions'] with old['actions'] to decide whether to rebuild the rewards)
     from . import c04
     c04.r3_copy_before_mutate(ctx, rule="C10.R8", only={"EncodeCatRows"})
